@@ -646,7 +646,21 @@ func CheckC17(e *Env) (int, error) {
 	if e.Tier == "thorough" {
 		n = 150000
 	}
-	envNames, envOpaque := instr.ToolEnvNames(e.RepoCopy(), "update-wordlist")
+	// Only AMBIENT variables are varied for the tool - facts about the machine and the session that differ between
+	// a developer's terminal, a CI runner and a container. A variable of the tool's own (an output directory, a
+	// language filter, a URL) is configuration: setting it legitimately changes what the tool does, and the
+	// property speaks about the tool as configured by default.
+	allNames, envOpaque := instr.ToolEnvNames(e.RepoCopy(), "update-wordlist")
+	ambient := map[string]bool{"CI": true, "NO_COLOR": true, "TERM": true, "LANG": true, "LC_ALL": true, "LC_MESSAGES": true, "LC_CTYPE": true,
+		"TZ": true, "USER": true, "LOGNAME": true, "DEBUG": true, "VERBOSE": true, "COLUMNS": true, "GITHUB_ACTIONS": true}
+	var envNames, envOwn []string
+	for _, n := range allNames {
+		if ambient[n] {
+			envNames = append(envNames, n)
+		} else {
+			envOwn = append(envOwn, n)
+		}
+	}
 	envVals := append([]string{"1", "true", "0", "ci", "C", "en_US.UTF-8", "ja_JP.UTF-8"}, instr.ToolEnvValues(e.RepoCopy(), "update-wordlist")...)
 	var mu sync.Mutex
 	var viols []*Violation
@@ -752,6 +766,7 @@ func CheckC17(e *Env) (int, error) {
 		"sim_steps_total":                        tot["lists_verified"],
 		"sim_time_note":                          "no clock in the tool; counted in files generated and verified",
 		"environment_variables_read_by_the_tool": envNames,
+		"configuration_variables_of_the_tool_left_alone": envOwn,
 		"environment_reads_with_opaque_names":    envOpaque,
 		"lists_verified":                         tot["lists_verified"],
 		"words_verified":                         tot["words_verified"],
